@@ -71,6 +71,10 @@ fn main() {
         r.finish();
     }
 
+    if std::env::args().any(|a| a == "--probe-new-writer-without-truncation") {
+        probe::new_writer_without_truncation();
+        std::process::exit(0);
+    }
     if std::env::args().any(|a| a == "--probe-epoch-gap") {
         probe::epoch_gap();
         std::process::exit(0);
